@@ -29,13 +29,8 @@ def r1_paths(ctx):
     seen = set()
     for p in ps:
         if p.exit == "raise":
-            cc, cv = p.conds[-1] if p.conds else (None, None)
-            # the rejecting decision: (some weight is None) and self.uncertainty, in any of its spellings
-            ok = None
-            if cc is not None:
-                nq = Q.none_quantifiers(cc)
-                if nq and Q.self_attr("uncertainty") in list(walk(cc)) + [cc]:
-                    ok = Q.some_none(p) is True and lookup(p.decided, Q.self_attr("uncertainty")) is True
+            # the rejecting decisions: (some weight is None) and self.uncertainty, in any of their spellings
+            ok = True if Q.some_none(p) is True and lookup(p.decided, Q.self_attr("uncertainty")) is True else None
             early = not any(e.kind == "call" and callee(e.data[0]) == "verde.coordinates.block_split" for e in p.events)
             ctx.check("R1", qn + "|uncertainty-without-weights-raises", True if ok and early else (False if ok and not early else None),
                       "uncertainty=True without weights raises before any blocking work", bad="the rejection happens after block_split", fn=qn)
@@ -120,7 +115,11 @@ def r2_uncertainty(ctx):
             if val[0] == "call" and callee(val) == "verde.blockreduce.attach_weights" and len(val[2]) == 2:
                 w = val[2][1]
                 wt, wix = fmt_key(w[2]) if w[0] == "sub" and w[1] == ("param", "table") else (None, None)
-                ok = True if wt and wt.startswith("weight") and wix == ix and val[2][0] == Q.self_attr("reduction") else (False if wt and (not wt.startswith("weight") or wix != ix) else None)
+                lids = lambda t: {x[2] for x in walk(t) if isinstance(x, tuple) and x and x[0] == "elem"}
+                # two index terms are definitely different only when they are read in the same loop(s) (or are constants); indices of two
+                # separate loops over the same range may well be in step (zip)
+                differ = wix != ix and wix is not None and ix is not None and lids(wix) == lids(ix)
+                ok = True if wt and wt.startswith("weight") and wix == ix and val[2][0] == Q.self_attr("reduction") else (False if wt and (not wt.startswith("weight") or differ) else None)
                 why = "data column i is averaged with column %s[%s]" % (wt, show(wix) if wix else None)
         ctx.check("R2", qn + "|data-weighted-by-own-weights", ok, "data column i is the weighted mean using weight column i", bad=why or "", fn=qn)
         okw = None
@@ -309,12 +308,14 @@ def r6_variance_to_weights(ctx):
         else:
             ctx.check("R6", "%s|all-at-or-below-tol-keep-one|%s" % (qn, tag), True if not st else False, "when no variance exceeds tol every weight stays 1", bad="weights are modified although no variance exceeds tol", fn=qn)
         v = p.value
+        is_tuple = v[0] == "tuple" or (v[0] == "comp" and v[1] == "tuple") or (v[0] == "call" and callee(v) == "builtins.tuple")
+        is_list = v[0] == "list" or (v[0] == "comp" and v[1] in ("list", "gen"))
         if single is True:
-            ok = v[0] == "sub" and v[2] == const(0)
-            ctx.check("R6", "%s|single-array-out|%s" % (qn, tag), True if ok else False, "one array in gives one array out", bad="a single variance array returns a tuple", fn=qn)
+            ok = True if v[0] == "sub" and v[2] == const(0) else (False if is_tuple or is_list else None)
+            ctx.check("R6", "%s|single-array-out|%s" % (qn, tag), ok, "one array in gives one array out", bad="a single variance array returns a sequence", fn=qn)
         elif single is False:
-            ok = v[0] == "tuple" or (v[0] == "call" and callee(v) == "builtins.tuple")
-            ctx.check("R6", "%s|tuple-out|%s" % (qn, tag), True if ok else False, "several arrays in give a tuple out", bad="several variance arrays do not return a tuple", fn=qn)
+            ok = True if is_tuple else (False if is_list or (v[0] == "sub" and is_const(v[2])) else None)
+            ctx.check("R6", "%s|tuple-out|%s" % (qn, tag), ok, "several arrays in give a tuple out", bad="several variance arrays do not return a tuple", fn=qn)
     if n < 4:
         ctx.add("R6", qn + "|paths", "UNDECIDED", "expected 4 return paths, found %d" % n, fn=qn)
 
